@@ -1,6 +1,7 @@
 /- line-protocol driver for the C04 model (Mathlib-free): a network of nodes over the toy AEAD -/
 import Ipv8.Base.Proto
 import Ipv8.C04.Model
+import Ipv8.C04.Lemmas
 open Ipv8 Ipv8.C04 Ipv8.Proto
 
 abbrev N := Node toy
@@ -64,6 +65,7 @@ def showLayers (plainLen : Nat) (body : Bytes) : String :=
 
 def showReason : Reason → String
   | .unknownCircuit => "unknownCircuit"
+  | .noKeys => "noKeys"
   | .decryptFail => "decryptFail"
   | .notEncrypted => "notEncrypted"
   | .tooManyEarly => "tooManyEarly"
@@ -155,6 +157,34 @@ def step (st : St) (toks : List String) : St × String :=
       | some st' => (st', "ok")
       | none => bad
     | _, _ => bad
+  | ["chainf", o, cid, nodes] =>
+    -- do the tables satisfy the hypotheses of `forward_delivers` (FwdChain, decided by `checkFwd`, proved sound)?
+    match o.toNat?, cid.toNat?, natList? nodes with
+    | some o, some cid, some nodes =>
+      match findNode st.net o, nodes.mapM (findNode st.net) with
+      | some ond, some nds =>
+        match List.lookup cid ond.circuits with
+        | some ce =>
+          if ce.hs.isSome then (st, "no:hs") else
+          match checkFwd (decide (ce.early < ond.maxEarly)) cid nds ce.hops with
+          | some (xa, xc) => (st, s!"ok {xa} {xc}")
+          | none => (st, "no")
+        | none => (st, "no:circuit")
+      | _, _ => bad
+    | _, _, _ => bad
+  | ["chainb", x, cid, nodes] =>
+    match x.toNat?, cid.toNat?, natList? nodes with
+    | some x, some cid, some nodes =>
+      match findNode st.net x, nodes.mapM (findNode st.net) with
+      | some xnd, some nds =>
+        match List.lookup cid xnd.circuits, List.lookup cid xnd.exits with
+        | none, some xe =>
+          match checkBwd cid nds [xe.key] with
+          | some (oa, oc) => (st, s!"ok {oa} {oc}")
+          | none => (st, "no")
+        | _, _ => (st, "no:exit")
+      | _, _ => bad
+    | _, _, _ => bad
   | ["dump", a] =>
     match a.toNat? with
     | some a => match findNode st.net a with
